@@ -115,13 +115,12 @@ def isAcc : Step → Bool
   | .acc _ => true
   | _ => false
 
-/-- the stateful elements are modelled on whole flows only: not among the pre-elements; an accumulator
-(whose `run` raises at once) not among the post-elements of the split analysis -/
+/-- the stateful elements are modelled on whole flows only: not among the pre-elements -/
 def toSpec (j : Json) : Option Spec := do
   let pre ← toSteps (getD j "pre")
   let acc ← toAcc (getD j "acc")
   let post ← toSteps (getD j "post")
-  if pre.any isStateful || post.any isAcc then none else pure ⟨pre, acc, post⟩
+  if pre.any isStateful then none else pure ⟨pre, acc, post⟩
 
 def toGetter (j : Json) : Option Getter :=
   match str? (getD j "k") with
@@ -228,13 +227,39 @@ def toCes (names : List String) (j : Json) : Option (List (Int × Int) → Optio
   | _ => none
 
 /-- everything the generic part of the driver needs to know about the analysis that is split -/
+def ofValueH : Value DataH → Json
+  | .bare (.v d) => Json.mkObj [("d", ofV d)]
+  | .pair (.v d) c => Json.mkObj [("d", ofV d), ("c", ofD c)]
+  | .bare (.h h) => Json.mkObj [("h", Json.mkObj (ofHist ofValue h)), ("c", Json.null)]
+  | .pair (.h h) c => Json.mkObj [("h", Json.mkObj (ofHist ofValue h)), ("c", ofD c)]
+
+/-- a value yielded by a stage over cells that may hold histograms -/
+def ofFValH : FVal Int DataH → Json
+  | .plain (.bare (.h h)) => Json.mkObj [("h", Json.mkObj (ofHist ofValue h)), ("c", Json.null)]
+  | .plain (.pair (.h h) c) => Json.mkObj [("h", Json.mkObj (ofHist ofValue h)), ("c", ofD c)]
+  | .plain v => Json.mkObj [("v", ofValueH v)]
+  | .hist h c => Json.mkObj [("h", Json.mkObj (ofHist ofValueH h)), ("c", ofOpt ofD c)]
+
+def fvalInH : FVal Int V → FVal Int DataH
+  | .plain v => .plain (valToH v)
+  | .hist h c => .hist ⟨h.edges, NArr.map valToH h.bins⟩ c
+
+def toSelH (s : String) : Option SelH :=
+  match s with
+  | "all" => some .all
+  | "int" => some .isInt
+  | "none" => some .none
+  | "default" => some .dflt
+  | _ => none
+
 structure Kit (σ ρ E : Type) where
-  an : Analysis σ V ρ E
+  an : AnalysisE σ V ρ E
   init : Option σ
   ofCell : σ → Json
   ofRes : ρ → Json
   errName : E → String
   toVal : ρ → Option Val
+  toValH : ρ → Value DataH
 
 def binsToVals {ρ : Type} (f : ρ → Option Val) (b : NArr ρ) : Option (NArr Val) :=
   match mdMapE (fun r => match f r with | some v => Except.ok v | none => Except.error ()) () () b with
@@ -289,18 +314,20 @@ def runKit {σ ρ E : Type} (names : List String) (j : Json) (k : Kit σ ρ E) (
   match (SIB.new names k.init argOk edges : Except (Exc E) (SIB Int σ)) with
   | .error e => pure (Json.mkObj [("init", Json.str (excNameWith k.errName e))])
   | .ok s0 =>
-    match SIB.fillAll names k.an av guessLo s0 flow with
+    match SIB.fillAll names k.an.toLazy av guessLo s0 flow with
     | .error (i, e) =>
       pure (Json.mkObj [("fill", Json.mkObj [("at", ofNat i), ("e", Json.str (excNameWith k.errName e))])])
     | .ok s =>
-      let comp := SIB.compute names k.an av s
+      let comp := SIB.computeE names k.an av s
       let ofH := fun (p : Hist Int ρ × Slots) => Json.mkObj (ofHist k.ofRes p.1 ++ [("c", ofD p.2)])
       let compJ := ofTraceW k.errName ofH comp
       let comp2J := if (bool? (getD j "twice")).getD false then
-          ofTraceW k.errName ofH (SIB.computeAgain names k.an av s) else Json.null
+          ofTraceW k.errName ofH (SIB.computeE names k.an av (SIB.afterCompute names av s)) else Json.null
       -- the histograms for the second stage: cells must be plain values
       let hists : List (Hist Int Val × Slots) := comp.out.filterMap (fun p =>
         (binsToVals k.toVal p.1.bins).map (fun b => (⟨p.1.edges, b⟩, p.2)))
+      let histsH : List (Hist Int (Value DataH) × Slots) :=
+        comp.out.map (fun p => (⟨p.1.edges, NArr.map k.toValH p.1.bins⟩, p.2))
       let ij := getD j "iter"
       let iterJ ← if ij.isNull then pure Json.null else do
         let cesJ := getD ij "ces"
@@ -309,21 +336,35 @@ def runKit {σ ρ E : Type} (names : List String) (j : Json) (k : Kit σ ρ E) (
         match (iterateBinsInit (!cesBad) (selS != "bad") : Except (Exc IErr) Unit) with
         | .error e => pure (Json.mkObj [("init", Json.str (excName e))])
         | .ok () =>
-          let sel ← toSel (Json.str (if selS == "default" then "none" else selS))
+          let sel ← toSelH selS
           let ces ← toCes names cesJ
-          let fl ← stageFlow ij hists
+          let pre ← toFVals (getD ij "pre")
+          let post ← toFVals (getD ij "post")
+          let bare := (bool? (getD ij "bare")).getD false
+          let fl := pre.map fvalInH ++ histsH.map (fun p => FVal.hist p.1 (if bare then none else some p.2))
+            ++ post.map fvalInH
           let t := iterateBinsRun names sel.onData ces (encEdges V.int) fl
           -- `iterate_bins_once`: the same through `cellOutput` for the first histogram
-          let once := match hists with
+          let once := match histsH with
             | [] => true
             | (h, c) :: _ =>
-              let hctx := if (bool? (getD ij "bare")).getD false then none else some c
+              let hctx := if bare then none else some c
               let a := iterateBinsOne names sel.onData ces (encEdges V.int) (FVal.hist h hctx)
               let b := traceMapM (cellOutput names ces (encEdges V.int) (hctx.getD (Lena.C14.emptyD names.length)) h.edges.axes)
                 (NArr.cells h.bins)
-              !(sel.onData (Lena.C14.getDataContext names ((NArr.values h.bins).headD (.bare (.int 0)))).1) ||
-                (ofTraceW id ofFVal a).compress == (ofTraceW id ofFVal b).compress
-          pure (Json.mkObj [("out", ofList ofFVal t.out), ("fin", ofExcW id t.fin), ("once", Json.bool once)])
+              !(sel.onData (Lena.C14.getDataContext names ((NArr.values h.bins).headD (.bare (.v (.int 0))))).1) ||
+                (ofTraceW id ofFValH a).compress == (ofTraceW id ofFValH b).compress
+          pure (Json.mkObj [("out", ofList ofFValH t.out), ("fin", ofExcW id t.fin), ("once", Json.bool once)])
+      -- a downstream element applied to every value `compute()` yields (only the contexts are reported)
+      let pj := getD j "pipe"
+      let pipeJ ← if pj.isNull then pure Json.null else do
+        let st ← toStep pj
+        let t : Trace Slots IErr := traceMapM (fun (p : Hist Int ρ × Slots) =>
+          match (st.run names (.pair (.int 0) p.2)) with
+          | ⟨[v], none⟩ => Except.ok (Lena.C14.getDataContext names v).2
+          | ⟨_, some e⟩ => Except.error e
+          | _ => Except.error "unmodelled") comp.out
+        pure (Json.mkObj [("out", ofList ofD t.out), ("fin", ofOpt Json.str t.fin)])
       let mj := getD j "map"
       let mapJ ← if mj.isNull then pure Json.null else do
         let selS ← str? (getD mj "sel")
@@ -337,7 +378,7 @@ def runKit {σ ρ E : Type} (names : List String) (j : Json) (k : Kit σ ρ E) (
           let fl ← stageFlow mj hists
           pure (ofTraceW id ofFVal (mapBinsRun names (seqStart names steps) (sel.onValue names) drop fl))
       pure (Json.mkObj [("cells", ofCells k.ofCell s.bins), ("cur", ofD s.curContext), ("compute", compJ),
-        ("compute2", comp2J), ("iter", iterJ), ("map", mapJ),
+        ("compute2", comp2J), ("iter", iterJ), ("map", mapJ), ("pipe", pipeJ),
         ("spec", specJson names k av edges s0 s flow)])
 
 def toInner (j : Json) : Option Inner := do
@@ -361,9 +402,9 @@ def handleCase (j : Json) : Option Json := do
   if innJ.isNull then do
     let spec ← toSpec (getD j "spec")
     let k : Kit AccState Val IErr := {
-      an := spec.analysis names
+      an := spec.analysisE names
       init := if seqOk then some (accInit names) else none
-      ofCell := ofAcc, ofRes := ofValue, errName := id, toVal := some }
+      ofCell := ofAcc, ofRes := ofValue, errName := id, toVal := some, toValH := valToH }
     runKit names j k (argVar getter vc) argOk edges flow
   else do
     let inn ← toInner innJ
@@ -371,10 +412,13 @@ def handleCase (j : Json) : Option Json := do
     | .error e => pure (Json.mkObj [("init", Json.str (excName e))])
     | .ok s0 =>
       let k : Kit (SIB Int AccState) (FVal Int V) (Exc IErr) := {
-        an := inn.analysis names
+        an := (inn.analysis names).toE
         init := if seqOk then some s0 else none
-        ofCell := ofInnerSIB, ofRes := ofFVal, errName := excName
-        toVal := fun fv => match fv with | .plain v => some v | .hist _ _ => none }
+        ofCell := ofInnerSIB
+        ofRes := fun fv => ofValueH (fvalToH fv)
+        errName := excName
+        toVal := fun fv => match fv with | .plain v => some v | .hist _ _ => none
+        toValH := fvalToH }
       let av : ArgVar Int V (Exc IErr) :=
         ⟨fun d => match getter.run d with | .ok x => .ok x | .error e => .error (.inner e), vc⟩
       runKit names j k av argOk edges flow
